@@ -1,7 +1,7 @@
 import RxnModel.Model.Align
 /-!
-Helper lemmas for C02: projections of observation traces, the trace checkers `cutOK` / `alignOK`, the state
-invariant `Inv` and its preservation by every step of `Rxn.Align.step`.
+Helper lemmas for C02: projections of observation traces, the trace checkers `cutOK` / `alignOK` / `timersOK`,
+the state invariant `Inv` and its preservation by every plain step of `Rxn.Align.step`.
 -/
 namespace Rxn.Align
 
@@ -10,41 +10,75 @@ namespace Rxn.Align
 /-- the items the consumer took, in processing order, with their sender -/
 def procsOf : List Obs → List (Nat × Item)
   | [] => []
-  | .proc sr it :: r => (sr, it) :: procsOf r
   | .aligned _ _ :: r => procsOf r
   | .busy _ :: r => procsOf r
-  | .handler _ _ :: r => procsOf r
+  | .proc sr it :: r => (sr, it) :: procsOf r
+  | .handler _ _ _ :: r => procsOf r
+  | .fired _ _ :: r => procsOf r
   | .reg _ _ :: r => procsOf r
   | .reject _ _ _ :: r => procsOf r
   | .snap _ _ _ :: r => procsOf r
   | .ack _ :: r => procsOf r
   | .released _ :: r => procsOf r
+  | .ackfail _ :: r => procsOf r
+  | .completed _ :: r => procsOf r
+  | .stopped :: r => procsOf r
+  | .redeployed _ :: r => procsOf r
 
 /-- the entries handed to the user handler, in order -/
 def entriesOf : List Obs → List Entry
   | [] => []
-  | .handler es _ :: r => es ++ entriesOf r
-  | .proc _ _ :: r => entriesOf r
   | .aligned _ _ :: r => entriesOf r
   | .busy _ :: r => entriesOf r
+  | .proc _ _ :: r => entriesOf r
+  | .handler es _ _ :: r => es ++ entriesOf r
+  | .fired _ _ :: r => entriesOf r
   | .reg _ _ :: r => entriesOf r
   | .reject _ _ _ :: r => entriesOf r
   | .snap _ _ _ :: r => entriesOf r
   | .ack _ :: r => entriesOf r
   | .released _ :: r => entriesOf r
+  | .ackfail _ :: r => entriesOf r
+  | .completed _ :: r => entriesOf r
+  | .stopped :: r => entriesOf r
+  | .redeployed _ :: r => entriesOf r
 
-/-- senders whose barrier was accepted since the last snapshot -/
-def gotOf : List Nat → List Obs → List Nat
+/-- (sender, id) of the barriers accepted since the last snapshot -/
+def gotOf : List (Nat × Nat) → List Obs → List (Nat × Nat)
   | g, [] => g
-  | g, .reg sr _ :: r => gotOf (sr :: g) r
-  | _, .snap _ _ _ :: r => gotOf [] r
-  | g, .proc _ _ :: r => gotOf g r
-  | g, .handler _ _ :: r => gotOf g r
   | g, .aligned _ _ :: r => gotOf g r
   | g, .busy _ :: r => gotOf g r
+  | g, .proc _ _ :: r => gotOf g r
+  | g, .handler _ _ _ :: r => gotOf g r
+  | g, .fired _ _ :: r => gotOf g r
+  | g, .reg sr id :: r => gotOf ((sr, id) :: g) r
   | g, .reject _ _ _ :: r => gotOf g r
+  | _, .snap _ _ _ :: r => gotOf [] r
   | g, .ack _ :: r => gotOf g r
   | g, .released _ :: r => gotOf g r
+  | g, .ackfail _ :: r => gotOf g r
+  | g, .completed _ :: r => gotOf g r
+  | g, .stopped :: r => gotOf g r
+  | g, .redeployed _ :: r => gotOf g r
+
+/-- the timer store replayed from a trace: the handler's timer requests pass the `SetTimer` guard of the
+watermark it was called with, fired timers are removed -/
+def timersOf : Timers → List Obs → Timers
+  | c, [] => c
+  | c, .aligned _ _ :: r => timersOf c r
+  | c, .busy _ :: r => timersOf c r
+  | c, .proc _ _ :: r => timersOf c r
+  | c, .handler es w _ :: r => timersOf (es.foldl (setTimer w) c) r
+  | c, .fired key ts :: r => timersOf (c.erase (ts, key)) r
+  | c, .reg _ _ :: r => timersOf c r
+  | c, .reject _ _ _ :: r => timersOf c r
+  | c, .snap _ _ _ :: r => timersOf c r
+  | c, .ack _ :: r => timersOf c r
+  | c, .released _ :: r => timersOf c r
+  | c, .ackfail _ :: r => timersOf c r
+  | c, .completed _ :: r => timersOf c r
+  | c, .stopped :: r => timersOf c r
+  | c, .redeployed _ :: r => timersOf c r
 
 theorem procsOf_append (a b : List Obs) : procsOf (a ++ b) = procsOf a ++ procsOf b := by
   induction a with
@@ -56,10 +90,15 @@ theorem entriesOf_append (a b : List Obs) : entriesOf (a ++ b) = entriesOf a ++ 
   | nil => rfl
   | cons x r ih => cases x <;> simp [entriesOf, ih]
 
-theorem gotOf_append (g : List Nat) (a b : List Obs) : gotOf g (a ++ b) = gotOf (gotOf g a) b := by
+theorem gotOf_append (g : List (Nat × Nat)) (a b : List Obs) : gotOf g (a ++ b) = gotOf (gotOf g a) b := by
   induction a generalizing g with
   | nil => rfl
   | cons x r ih => cases x <;> simp [gotOf, ih]
+
+theorem timersOf_append (c : Timers) (a b : List Obs) : timersOf c (a ++ b) = timersOf (timersOf c a) b := by
+  induction a generalizing c with
+  | nil => rfl
+  | cons x r ih => cases x <;> simp [timersOf, ih]
 
 /-- keyed events among handler entries, with their (ghost) sender -/
 def userOf : List Entry → List (Nat × Bytes × Nat × Nat)
@@ -73,6 +112,7 @@ def userProcs : List (Nat × Item) → List (Nat × Bytes × Nat × Nat)
   | (sr, .ev k p t) :: r => (sr, k, p, t) :: userProcs r
   | (_, .wm _) :: r => userProcs r
   | (_, .bar _) :: r => userProcs r
+  | (_, .done) :: r => userProcs r
 
 theorem userOf_append (a b : List Entry) : userOf (a ++ b) = userOf a ++ userOf b := by
   induction a with
@@ -97,59 +137,96 @@ theorem lastProc_concat (sr sr' : Nat) (it : Item) (p : List (Nat × Item)) :
   · simp [List.filter_append, h]
   · simp [List.filter_append, h]
 
-/-- **the cut**: what a snapshot `S` with id `id`, taken after the consumer took `p` and the handler received `a`,
-must satisfy -/
-def Cut (k : Nat) (p : List (Nat × Item)) (a : List Entry) (id : Nat) (S : KVf) : Prop :=
-  S = a.foldl applyRec emptyKV ∧ userOf a = userProcs p ∧ ∀ sr, sr < k → lastProc sr p = some (.bar id)
+/-- **the cut**: what a snapshot `S` with id `id` must satisfy when, since the deployment started with keyed state
+`base` and keyed events `u0` waiting in the batcher, the consumer took `p` and the handler received `a` -/
+def Cut (k : Nat) (base : KVf) (u0 : List (Nat × Bytes × Nat × Nat)) (p : List (Nat × Item)) (a : List Entry)
+    (id : Nat) (S : KVf) : Prop :=
+  S = a.foldl applyRec base ∧ userOf a = u0 ++ userProcs p ∧ ∀ sr, sr < k → lastProc sr p = some (.bar id)
 
 /-- trace checker: every snapshot in the trace is a consistent cut of what precedes it -/
-def cutOK (k : Nat) : List (Nat × Item) → List Entry → List Obs → Prop
+def cutOK (k : Nat) (base : KVf) (u0 : List (Nat × Bytes × Nat × Nat)) :
+    List (Nat × Item) → List Entry → List Obs → Prop
   | _, _, [] => True
-  | p, a, .proc sr it :: r => cutOK k (p ++ [(sr, it)]) a r
-  | p, a, .handler es _ :: r => cutOK k p (a ++ es) r
-  | p, a, .snap id S _ :: r => Cut k p a id S ∧ cutOK k p a r
-  | p, a, .aligned _ _ :: r => cutOK k p a r
-  | p, a, .busy _ :: r => cutOK k p a r
-  | p, a, .reg _ _ :: r => cutOK k p a r
-  | p, a, .reject _ _ _ :: r => cutOK k p a r
-  | p, a, .ack _ :: r => cutOK k p a r
-  | p, a, .released _ :: r => cutOK k p a r
+  | p, a, .aligned _ _ :: r => cutOK k base u0 p a r
+  | p, a, .busy _ :: r => cutOK k base u0 p a r
+  | p, a, .proc sr it :: r => cutOK k base u0 (p ++ [(sr, it)]) a r
+  | p, a, .handler es _ _ :: r => cutOK k base u0 p (a ++ es) r
+  | p, a, .fired _ _ :: r => cutOK k base u0 p a r
+  | p, a, .reg _ _ :: r => cutOK k base u0 p a r
+  | p, a, .reject _ _ _ :: r => cutOK k base u0 p a r
+  | p, a, .snap id S _ :: r => Cut k base u0 p a id S ∧ cutOK k base u0 p a r
+  | p, a, .ack _ :: r => cutOK k base u0 p a r
+  | p, a, .released _ :: r => cutOK k base u0 p a r
+  | p, a, .ackfail _ :: r => cutOK k base u0 p a r
+  | p, a, .completed _ :: r => cutOK k base u0 p a r
+  | p, a, .stopped :: r => cutOK k base u0 p a r
+  | p, a, .redeployed _ :: r => cutOK k base u0 p a r
 
-theorem cutOK_append (k : Nat) (p : List (Nat × Item)) (a : List Entry) (o1 o2 : List Obs) :
-    cutOK k p a (o1 ++ o2) ↔ cutOK k p a o1 ∧ cutOK k (p ++ procsOf o1) (a ++ entriesOf o1) o2 := by
+theorem cutOK_append (k : Nat) (base : KVf) (u0) (p : List (Nat × Item)) (a : List Entry) (o1 o2 : List Obs) :
+    cutOK k base u0 p a (o1 ++ o2) ↔
+      cutOK k base u0 p a o1 ∧ cutOK k base u0 (p ++ procsOf o1) (a ++ entriesOf o1) o2 := by
   induction o1 generalizing p a with
   | nil => simp [cutOK, procsOf, entriesOf]
   | cons x r ih =>
     cases x <;> simp [cutOK, procsOf, entriesOf, ih, and_assoc, List.append_assoc]
 
-theorem cutOK_split {k : Nat} {p : List (Nat × Item)} {a : List Entry} {pre post : List Obs} {id : Nat} {S : KVf}
-    {T : Timers} (h : cutOK k p a (pre ++ .snap id S T :: post)) :
-    Cut k (p ++ procsOf pre) (a ++ entriesOf pre) id S := by
+theorem cutOK_split {k : Nat} {base : KVf} {u0} {p : List (Nat × Item)} {a : List Entry} {pre post : List Obs}
+    {id : Nat} {S : KVf} {T : Timers} (h : cutOK k base u0 p a (pre ++ .snap id S T :: post)) :
+    Cut k base u0 (p ++ procsOf pre) (a ++ entriesOf pre) id S := by
   rw [cutOK_append] at h
   exact h.2.1
 
 /-- trace checker for the alignment discipline: a sender whose barrier was accepted is not served again before
-the snapshot, and a snapshot is only taken when every sender's barrier was accepted since the previous one -/
-def alignOK (k : Nat) : List Nat → List Obs → Prop
+the snapshot, and a snapshot `id` is only taken when every sender's barrier `id` was accepted since the previous one -/
+def alignOK (k : Nat) : List (Nat × Nat) → List Obs → Prop
   | _, [] => True
-  | g, .reg sr _ :: r => alignOK k (sr :: g) r
-  | g, .proc sr _ :: r => sr ∉ g ∧ alignOK k g r
-  | g, .snap _ _ _ :: r => (∀ sr, sr < k → sr ∈ g) ∧ alignOK k [] r
-  | g, .handler _ _ :: r => alignOK k g r
   | g, .aligned _ _ :: r => alignOK k g r
   | g, .busy _ :: r => alignOK k g r
+  | g, .proc sr _ :: r => (∀ i, (sr, i) ∉ g) ∧ alignOK k g r
+  | g, .handler _ _ _ :: r => alignOK k g r
+  | g, .fired _ _ :: r => alignOK k g r
+  | g, .reg sr id :: r => alignOK k ((sr, id) :: g) r
   | g, .reject _ _ _ :: r => alignOK k g r
+  | g, .snap id _ _ :: r => (∀ sr, sr < k → (sr, id) ∈ g) ∧ alignOK k [] r
   | g, .ack _ :: r => alignOK k g r
   | g, .released _ :: r => alignOK k g r
+  | g, .ackfail _ :: r => alignOK k g r
+  | g, .completed _ :: r => alignOK k g r
+  | g, .stopped :: r => alignOK k g r
+  | g, .redeployed _ :: r => alignOK k g r
 
-theorem alignOK_append (k : Nat) (g : List Nat) (o1 o2 : List Obs) :
+theorem alignOK_append (k : Nat) (g : List (Nat × Nat)) (o1 o2 : List Obs) :
     alignOK k g (o1 ++ o2) ↔ alignOK k g o1 ∧ alignOK k (gotOf g o1) o2 := by
   induction o1 generalizing g with
   | nil => simp [alignOK, gotOf]
   | cons x r ih => cases x <;> simp [alignOK, gotOf, ih, and_assoc]
 
-/-- observation lists that only contain handler calls -/
-def OnlyH (o : List Obs) : Prop := ∀ x ∈ o, ∃ es g, x = Obs.handler es g
+/-- trace checker: every snapshot holds exactly the replayed timer store -/
+def timersOK : Timers → List Obs → Prop
+  | _, [] => True
+  | c, .aligned _ _ :: r => timersOK c r
+  | c, .busy _ :: r => timersOK c r
+  | c, .proc _ _ :: r => timersOK c r
+  | c, .handler es w _ :: r => timersOK (es.foldl (setTimer w) c) r
+  | c, .fired key ts :: r => timersOK (c.erase (ts, key)) r
+  | c, .reg _ _ :: r => timersOK c r
+  | c, .reject _ _ _ :: r => timersOK c r
+  | c, .snap _ _ T :: r => T = c ∧ timersOK c r
+  | c, .ack _ :: r => timersOK c r
+  | c, .released _ :: r => timersOK c r
+  | c, .ackfail _ :: r => timersOK c r
+  | c, .completed _ :: r => timersOK c r
+  | c, .stopped :: r => timersOK c r
+  | c, .redeployed _ :: r => timersOK c r
+
+theorem timersOK_append (c : Timers) (o1 o2 : List Obs) :
+    timersOK c (o1 ++ o2) ↔ timersOK c o1 ∧ timersOK (timersOf c o1) o2 := by
+  induction o1 generalizing c with
+  | nil => simp [timersOK, timersOf]
+  | cons x r ih => cases x <;> simp [timersOK, timersOf, ih, and_assoc]
+
+/-- observation lists that only contain handler calls and (ghost) timer firings -/
+def OnlyH (o : List Obs) : Prop := ∀ x ∈ o, (∃ es w g, x = Obs.handler es w g) ∨ (∃ key ts, x = Obs.fired key ts)
 
 theorem OnlyH.nil : OnlyH [] := by intro x hx; cases hx
 
@@ -159,81 +236,109 @@ theorem OnlyH.append {a b : List Obs} (ha : OnlyH a) (hb : OnlyH b) : OnlyH (a +
   · exact ha x h
   · exact hb x h
 
+theorem OnlyH.cons_handler {es w g} {r : List Obs} (h : OnlyH r) : OnlyH (Obs.handler es w g :: r) := by
+  intro x hx
+  rcases List.mem_cons.mp hx with rfl | hx
+  · exact Or.inl ⟨_, _, _, rfl⟩
+  · exact h x hx
+
+theorem OnlyH.cons_fired {key ts} {r : List Obs} (h : OnlyH r) : OnlyH (Obs.fired key ts :: r) := by
+  intro x hx
+  rcases List.mem_cons.mp hx with rfl | hx
+  · exact Or.inr ⟨_, _, rfl⟩
+  · exact h x hx
+
 theorem OnlyH.tail {x : Obs} {r : List Obs} (h : OnlyH (x :: r)) : OnlyH r :=
   fun y hy => h y (List.mem_cons_of_mem _ hy)
 
-theorem OnlyH.head {x : Obs} {r : List Obs} (h : OnlyH (x :: r)) : ∃ es g, x = Obs.handler es g :=
+theorem OnlyH.head {x : Obs} {r : List Obs} (h : OnlyH (x :: r)) :
+    (∃ es w g, x = Obs.handler es w g) ∨ (∃ key ts, x = Obs.fired key ts) :=
   h x (List.mem_cons_self)
 
 theorem OnlyH.procsOf {o : List Obs} (h : OnlyH o) : procsOf o = [] := by
   induction o with
   | nil => rfl
   | cons x r ih =>
-    obtain ⟨es, g, rfl⟩ := h.head
-    simpa [Align.procsOf] using ih h.tail
+    rcases h.head with ⟨es, w, g, rfl⟩ | ⟨key, ts, rfl⟩
+    · simpa [Align.procsOf] using ih h.tail
+    · simpa [Align.procsOf] using ih h.tail
 
-theorem OnlyH.gotOf {o : List Obs} (h : OnlyH o) (g : List Nat) : gotOf g o = g := by
+theorem OnlyH.gotOf {o : List Obs} (h : OnlyH o) (g : List (Nat × Nat)) : gotOf g o = g := by
   induction o with
   | nil => rfl
   | cons x r ih =>
-    obtain ⟨es, g', rfl⟩ := h.head
-    simpa [Align.gotOf] using ih h.tail
+    rcases h.head with ⟨es, w, g', rfl⟩ | ⟨key, ts, rfl⟩
+    · simpa [Align.gotOf] using ih h.tail
+    · simpa [Align.gotOf] using ih h.tail
 
-theorem OnlyH.cutOK {o : List Obs} (h : OnlyH o) (k : Nat) (p : List (Nat × Item)) (a : List Entry) :
-    cutOK k p a o := by
+theorem OnlyH.cutOK {o : List Obs} (h : OnlyH o) (k : Nat) (base : KVf) (u0) (p : List (Nat × Item))
+    (a : List Entry) : cutOK k base u0 p a o := by
   induction o generalizing a with
   | nil => trivial
   | cons x r ih =>
-    obtain ⟨es, g', rfl⟩ := h.head
-    simpa [Align.cutOK] using ih h.tail _
+    rcases h.head with ⟨es, w, g', rfl⟩ | ⟨key, ts, rfl⟩
+    · simpa [Align.cutOK] using ih h.tail _
+    · simpa [Align.cutOK] using ih h.tail _
 
-theorem OnlyH.alignOK {o : List Obs} (h : OnlyH o) (k : Nat) (g : List Nat) : alignOK k g o := by
+theorem OnlyH.alignOK {o : List Obs} (h : OnlyH o) (k : Nat) (g : List (Nat × Nat)) : alignOK k g o := by
   induction o with
   | nil => trivial
   | cons x r ih =>
-    obtain ⟨es, g', rfl⟩ := h.head
-    simpa [Align.alignOK] using ih h.tail
+    rcases h.head with ⟨es, w, g', rfl⟩ | ⟨key, ts, rfl⟩
+    · simpa [Align.alignOK] using ih h.tail
+    · simpa [Align.alignOK] using ih h.tail
+
+theorem OnlyH.timersOK {o : List Obs} (h : OnlyH o) (c : Timers) : timersOK c o := by
+  induction o generalizing c with
+  | nil => trivial
+  | cons x r ih =>
+    rcases h.head with ⟨es, w, g', rfl⟩ | ⟨key, ts, rfl⟩
+    · simpa [Align.timersOK] using ih h.tail _
+    · simpa [Align.timersOK] using ih h.tail _
 
 /-! ## batching: entries only move from `pending` to the handler, in order -/
 
 /-- `s'` is reached from `s` by adding the entries `es` to the batcher, possibly flushing on the way; `o` holds
-the handler calls made -/
+the handler calls made (and ghost timer firings) -/
 structure Ext (s s' : St) (o : List Obs) (es : List Entry) : Prop where
   k : s'.k = s.k
   maxSize : s'.maxSize = s.maxSize
   slots : s'.slots = s.slots
   ckpt : s'.ckpt = s.ckpt
+  af : s'.ackFails = s.ackFails
   onlyH : OnlyH o
   ents : entriesOf o ++ s'.pending = s.pending ++ es
   kv : s'.kv = (entriesOf o).foldl applyRec s.kv
 
 theorem Ext.refl (s : St) : Ext s s [] [] :=
-  ⟨rfl, rfl, rfl, rfl, OnlyH.nil, by simp [entriesOf], by simp [entriesOf]⟩
+  ⟨rfl, rfl, rfl, rfl, rfl, OnlyH.nil, by simp [entriesOf], by simp [entriesOf]⟩
 
 theorem Ext.trans {s s1 s2 : St} {o1 o2 : List Obs} {e1 e2 : List Entry}
     (h1 : Ext s s1 o1 e1) (h2 : Ext s1 s2 o2 e2) : Ext s s2 (o1 ++ o2) (e1 ++ e2) := by
   refine ⟨h2.k.trans h1.k, h2.maxSize.trans h1.maxSize, h2.slots.trans h1.slots, h2.ckpt.trans h1.ckpt,
-    h1.onlyH.append h2.onlyH, ?_, ?_⟩
+    h2.af.trans h1.af, h1.onlyH.append h2.onlyH, ?_, ?_⟩
   · rw [entriesOf_append, List.append_assoc, h2.ents, ← List.append_assoc, h1.ents, List.append_assoc]
   · rw [entriesOf_append, List.foldl_append, ← h1.kv, h2.kv]
 
 /-- `Ext` only looks at the batching-relevant part of the start state -/
 theorem Ext.of_eq {s0 s s' : St} {o : List Obs} {es : List Entry} (h : Ext s0 s' o es)
     (hk : s0.k = s.k) (hm : s0.maxSize = s.maxSize) (hs : s0.slots = s.slots) (hc : s0.ckpt = s.ckpt)
+    (ha : s0.ackFails = s.ackFails)
     (hp : s0.pending = s.pending) (hkv : s0.kv = s.kv) : Ext s s' o es :=
-  ⟨h.k.trans hk, h.maxSize.trans hm, h.slots.trans hs, h.ckpt.trans hc, h.onlyH, by rw [← hp]; exact h.ents,
-   by rw [← hkv]; exact h.kv⟩
+  ⟨h.k.trans hk, h.maxSize.trans hm, h.slots.trans hs, h.ckpt.trans hc, h.af.trans ha, h.onlyH,
+   by rw [← hp]; exact h.ents, by rw [← hkv]; exact h.kv⟩
+
+/-- a fired timer is noted (ghost) in front of the handler calls it may cause -/
+theorem Ext.cons_fired {s s' : St} {o : List Obs} {es : List Entry} (h : Ext s s' o es) (key : Bytes) (ts : Nat) :
+    Ext s s' (.fired key ts :: o) es :=
+  ⟨h.k, h.maxSize, h.slots, h.ckpt, h.af, h.onlyH.cons_fired, by simpa [entriesOf] using h.ents,
+   by simpa [entriesOf] using h.kv⟩
 
 theorem flush_ext (s : St) : Ext s (flush s).1 (flush s).2 [] := by
   unfold flush
   split
   · exact Ext.refl s
-  · refine ⟨rfl, rfl, rfl, rfl, ?_, ?_, ?_⟩
-    · intro x hx
-      simp at hx
-      exact ⟨_, _, hx⟩
-    · simp [entriesOf]
-    · simp [entriesOf]
+  · exact ⟨rfl, rfl, rfl, rfl, rfl, OnlyH.nil.cons_handler, by simp [entriesOf], by simp [entriesOf]⟩
 
 theorem flush_pending (s : St) : (flush s).1.pending = [] := by
   unfold flush
@@ -242,13 +347,23 @@ theorem flush_pending (s : St) : (flush s).1.pending = [] := by
     simpa using h
   · rfl
 
+theorem flush_timers (s : St) : (flush s).1.timers = timersOf s.timers (flush s).2 := by
+  unfold flush
+  split
+  · rfl
+  · simp [timersOf]
+
 theorem push_ext (s : St) (e : Entry) : Ext s (push s e) [] [e] := by
   unfold push
   split
   · rename_i hp
     have hp' : s.pending = [] := by simpa using hp
-    exact ⟨rfl, rfl, rfl, rfl, OnlyH.nil, by simp [entriesOf, hp'], by simp [entriesOf]⟩
-  · exact ⟨rfl, rfl, rfl, rfl, OnlyH.nil, by simp [entriesOf], by simp [entriesOf]⟩
+    exact ⟨rfl, rfl, rfl, rfl, rfl, OnlyH.nil, by simp [entriesOf, hp'], by simp [entriesOf]⟩
+  · exact ⟨rfl, rfl, rfl, rfl, rfl, OnlyH.nil, by simp [entriesOf], by simp [entriesOf]⟩
+
+theorem push_timers (s : St) (e : Entry) : (push s e).timers = s.timers := by
+  unfold push
+  split <;> rfl
 
 theorem maybeFlush_ext (s : St) : Ext s (maybeFlush s).1 (maybeFlush s).2 [] := by
   unfold maybeFlush
@@ -256,71 +371,108 @@ theorem maybeFlush_ext (s : St) : Ext s (maybeFlush s).1 (maybeFlush s).2 [] := 
   · exact flush_ext s
   · exact Ext.refl s
 
+theorem maybeFlush_timers (s : St) : (maybeFlush s).1.timers = timersOf s.timers (maybeFlush s).2 := by
+  unfold maybeFlush
+  split
+  · exact flush_timers s
+  · rfl
+
 theorem addEntry_ext (s : St) (e : Entry) : Ext s (addEntry s e).1 (addEntry s e).2 [e] := by
   have h := (push_ext s e).trans (maybeFlush_ext (push s e))
   simpa [addEntry] using h
 
+theorem addEntry_timers (s : St) (e : Entry) : (addEntry s e).1.timers = timersOf s.timers (addEntry s e).2 := by
+  unfold addEntry
+  rw [maybeFlush_timers, push_timers]
+
 theorem fireLoop_ext (sr w : Nat) : ∀ (n : Nat) (s : St) (o0 : List Obs),
-    ∃ o es, (fireLoop sr w n s o0).2 = o0 ++ o ∧ Ext s (fireLoop sr w n s o0).1 o es ∧ userOf es = [] := by
+    ∃ o es, (fireLoop sr w n s o0).2 = o0 ++ o ∧ Ext s (fireLoop sr w n s o0).1 o es ∧ userOf es = [] ∧
+      (fireLoop sr w n s o0).1.timers = timersOf s.timers o := by
   intro n
   induction n with
-  | zero => intro s o0; exact ⟨[], [], by simp [fireLoop], Ext.refl s, rfl⟩
+  | zero => intro s o0; exact ⟨[], [], by simp [fireLoop], Ext.refl s, rfl, rfl⟩
   | succ n ih =>
     intro s o0
     unfold fireLoop
     split
-    · exact ⟨[], [], by simp, Ext.refl s, rfl⟩
+    · exact ⟨[], [], by simp, Ext.refl s, rfl, rfl⟩
     · rename_i ts key rest hts
       split
-      · exact ⟨[], [], by simp, Ext.refl s, rfl⟩
-      · have h1 := (addEntry_ext { s with timers := rest } (.timer sr key ts)).of_eq
-          (s := s) rfl rfl rfl rfl rfl rfl
-        obtain ⟨o, es, ho, hext, hu⟩ := ih (addEntry { s with timers := rest } (.timer sr key ts)).1
-          (o0 ++ (addEntry { s with timers := rest } (.timer sr key ts)).2)
-        refine ⟨(addEntry { s with timers := rest } (.timer sr key ts)).2 ++ o, [.timer sr key ts] ++ es, ?_,
-          h1.trans hext, ?_⟩
-        · simp only [ho, List.append_assoc]
+      · exact ⟨[], [], by simp, Ext.refl s, rfl, rfl⟩
+      · have h1 := ((addEntry_ext { s with timers := rest } (.timer sr key ts)).of_eq
+          (s := s) rfl rfl rfl rfl rfl rfl rfl).cons_fired key ts
+        obtain ⟨o, es, ho, hext, hu, htm⟩ := ih (addEntry { s with timers := rest } (.timer sr key ts)).1
+          (o0 ++ .fired key ts :: (addEntry { s with timers := rest } (.timer sr key ts)).2)
+        refine ⟨.fired key ts :: (addEntry { s with timers := rest } (.timer sr key ts)).2 ++ o,
+          [.timer sr key ts] ++ es, ?_, h1.trans hext, ?_, ?_⟩
+        · simp only [ho, List.append_assoc, List.cons_append]
         · simp [userOf, hu]
+        · rw [htm, addEntry_timers, timersOf_append]
+          simp [timersOf, hts]
 
 /-! ## the state invariant -/
 
-/-- `p` = items the consumer took so far, `a` = entries the handler received so far, `g` = senders whose barrier
-was accepted since the last snapshot -/
-structure Inv (s : St) (p : List (Nat × Item)) (a : List Entry) (g : List Nat) : Prop where
-  kv_eq : s.kv = a.foldl applyRec emptyKV
-  users : userOf (a ++ s.pending) = userProcs p
-  ck : ∀ id m, s.ckpt = some (id, m) → ∀ sr, sr < s.k → sr ∉ m →
+/-- `base`/`u0` = keyed state and keyed events waiting in the batcher when the deployment started; `p` = items the
+consumer took since, `a` = entries the handler received since, `g` = (sender, id) of the barriers accepted since
+the last snapshot -/
+structure Inv (base : KVf) (u0 : List (Nat × Bytes × Nat × Nat)) (s : St) (p : List (Nat × Item))
+    (a : List Entry) (g : List (Nat × Nat)) : Prop where
+  kv_eq : s.kv = a.foldl applyRec base
+  users : userOf (a ++ s.pending) = u0 ++ userProcs p
+  ck : ∀ id m, s.ckpt = some (id, m) → m ≠ [] ∧ ∀ sr, sr < s.k → sr ∉ m →
         lastProc sr p = some (.bar id) ∧ ∀ it, s.slots sr ≠ some (it, true)
   parked : ∀ sr it, s.slots sr = some (it, false) → ∃ id m, s.ckpt = some (id, m) ∧ sr ∉ m
-  got : ∀ sr, sr ∈ g ↔ ∃ id m, s.ckpt = some (id, m) ∧ sr < s.k ∧ sr ∉ m
+  got : ∀ sr i, (sr, i) ∈ g ↔ ∃ m, s.ckpt = some (i, m) ∧ sr < s.k ∧ sr ∉ m
+  af : s.ackFails = false
 
-theorem inv_init (k b : Nat) : Inv (init k b) [] [] [] :=
-  ⟨rfl, rfl, by intro id m h; simp [init] at h, by intro sr it h; simp [init] at h,
-   by intro sr; simp [init]⟩
+/-- a deployment starts here: no checkpoint in progress, nobody parked, the job reachable -/
+structure Fresh (s : St) : Prop where
+  ckpt : s.ckpt = none
+  noParked : ∀ sr it, s.slots sr ≠ some (it, false)
+  af : s.ackFails = false
+
+theorem inv_fresh {s : St} (h : Fresh s) : Inv s.kv (userOf s.pending) s [] [] [] :=
+  ⟨rfl, by simp [userProcs], (by intro id m hc; rw [h.ckpt] at hc; cases hc),
+   (by intro sr it hs; exact absurd hs (h.noParked sr it)),
+   (by intro sr i; simp [h.ckpt]), h.af⟩
+
+theorem init_fresh (k b : Nat) : Fresh (init k b) := ⟨rfl, by intro sr it; simp [init], rfl⟩
+
+variable {base : KVf} {u0 : List (Nat × Bytes × Nat × Nat)}
+
+theorem Inv.congr {s s' : St} {p a g} (h : Inv base u0 s p a g) (hk : s'.k = s.k) (hs : s'.slots = s.slots)
+    (hc : s'.ckpt = s.ckpt) (hp : s'.pending = s.pending) (hkv : s'.kv = s.kv)
+    (ha : s'.ackFails = s.ackFails) : Inv base u0 s' p a g := by
+  refine ⟨by rw [hkv]; exact h.kv_eq, by rw [hp]; exact h.users, ?_, ?_, ?_, by rw [ha]; exact h.af⟩
+  · rw [hc, hk, hs]; exact h.ck
+  · rw [hc, hs]; exact h.parked
+  · rw [hc, hk]; exact h.got
 
 /-- a sender that passed alignment is not among those whose barrier was accepted -/
-theorem Inv.passed_missing {s : St} {p a g} (h : Inv s p a g) {sr : Nat} {it : Item} (hsr : sr < s.k)
+theorem Inv.passed_missing {s : St} {p a g} (h : Inv base u0 s p a g) {sr : Nat} {it : Item} (hsr : sr < s.k)
     (hslot : s.slots sr = some (it, true)) {id : Nat} {m : List Nat} (hc : s.ckpt = some (id, m)) : sr ∈ m := by
   by_cases hm : sr ∈ m
   · exact hm
-  · exact absurd hslot ((h.ck id m hc sr hsr hm).2 it)
+  · exact absurd hslot (((h.ck id m hc).2 sr hsr hm).2 it)
 
-theorem Inv.passed_not_got {s : St} {p a g} (h : Inv s p a g) {sr : Nat} {it : Item} (hsr : sr < s.k)
-    (hslot : s.slots sr = some (it, true)) : sr ∉ g := by
-  intro hg
-  obtain ⟨id, m, hc, _, hm⟩ := (h.got sr).mp hg
+theorem Inv.passed_not_got {s : St} {p a g} (h : Inv base u0 s p a g) {sr : Nat} {it : Item} (hsr : sr < s.k)
+    (hslot : s.slots sr = some (it, true)) : ∀ i, (sr, i) ∉ g := by
+  intro i hg
+  obtain ⟨m, hc, _, hm⟩ := (h.got sr i).mp hg
   exact hm (h.passed_missing hsr hslot hc)
 
 /-- clearing the slot of a sender (its `HandleEvent` returned) -/
-theorem Inv.clear {s : St} {p a g} (h : Inv s p a g) (sr : Nat) :
-    Inv { s with slots := fun i => if i = sr then none else s.slots i } p a g := by
-  refine ⟨h.kv_eq, h.users, ?_, ?_, h.got⟩
-  · intro id m hc x hx hxm
-    refine ⟨(h.ck id m hc x hx hxm).1, ?_⟩
+theorem Inv.clear {s : St} {p a g} (h : Inv base u0 s p a g) (sr : Nat) :
+    Inv base u0 { s with slots := fun i => if i = sr then none else s.slots i } p a g := by
+  refine ⟨h.kv_eq, h.users, ?_, ?_, h.got, h.af⟩
+  · intro id m hc
+    refine ⟨(h.ck id m hc).1, ?_⟩
+    intro x hx hxm
+    refine ⟨((h.ck id m hc).2 x hx hxm).1, ?_⟩
     intro it
     by_cases hxs : x = sr
     · simp [hxs]
-    · simpa [hxs] using (h.ck id m hc x hx hxm).2 it
+    · simpa [hxs] using ((h.ck id m hc).2 x hx hxm).2 it
   · intro x it hslot
     by_cases hxs : x = sr
     · simp [hxs] at hslot
@@ -328,25 +480,27 @@ theorem Inv.clear {s : St} {p a g} (h : Inv s p a g) (sr : Nat) :
       exact h.parked x it hslot
 
 /-- batching steps keep the invariant, given what happened to the processed list -/
-theorem Inv.ext {s s' : St} {p p' a g} {o : List Obs} {es : List Entry} (h : Inv s p a g) (hx : Ext s s' o es)
-    (hu : userProcs p' = userProcs p ++ userOf es)
+theorem Inv.ext {s s' : St} {p p' a g} {o : List Obs} {es : List Entry} (h : Inv base u0 s p a g)
+    (hx : Ext s s' o es) (hu : userProcs p' = userProcs p ++ userOf es)
     (hl : ∀ id m sr, s.ckpt = some (id, m) → sr < s.k → sr ∉ m → lastProc sr p' = lastProc sr p) :
-    Inv s' p' (a ++ entriesOf o) g := by
-  refine ⟨?_, ?_, ?_, ?_, ?_⟩
+    Inv base u0 s' p' (a ++ entriesOf o) g := by
+  refine ⟨?_, ?_, ?_, ?_, ?_, by rw [hx.af]; exact h.af⟩
   · rw [hx.kv, List.foldl_append, ← h.kv_eq]
-  · rw [List.append_assoc, hx.ents, ← List.append_assoc, userOf_append, h.users, hu]
-  · intro id m hc sr hsr hm
+  · rw [List.append_assoc, hx.ents, ← List.append_assoc, userOf_append, h.users, hu, List.append_assoc]
+  · intro id m hc
     rw [hx.ckpt] at hc
+    refine ⟨(h.ck id m hc).1, ?_⟩
+    intro sr hsr hm
     rw [hx.k] at hsr
     rw [hx.slots, hl id m sr hc hsr hm]
-    exact h.ck id m hc sr hsr hm
+    exact (h.ck id m hc).2 sr hsr hm
   · intro sr it hslot
     rw [hx.slots] at hslot
     rw [hx.ckpt]
     exact h.parked sr it hslot
-  · intro sr
+  · intro sr i
     rw [hx.ckpt, hx.k]
-    exact h.got sr
+    exact h.got sr i
 
 /-! ## the barrier handler -/
 
@@ -365,23 +519,34 @@ theorem barrier_reg {s : St} {sr id : Nat} (h : id = (virtCk s id).1)
   rw [if_neg (by simpa using h), if_neg (by rw [hm]; simp)]
 
 theorem barrier_done {s : St} {sr id : Nat} (h : id = (virtCk s id).1)
-    (hm : ((virtCk s id).2.filter (· ≠ sr)).isEmpty = true) :
+    (hm : ((virtCk s id).2.filter (· ≠ sr)).isEmpty = true) (haf : s.ackFails = false) :
     barrier s sr id =
       ({ (flush s).1 with ckpt := none, slots := release (flush s).1.slots },
        [.reg sr id] ++ (flush s).2 ++
          [.snap (virtCk s id).1 (flush s).1.kv (flush s).1.timers, .ack (virtCk s id).1, .released (parkedList s)]) := by
   unfold barrier
   simp only []
-  rw [if_neg (by simpa using h), if_pos hm]
+  rw [if_neg (by simpa using h), if_pos hm, if_neg (by simp [haf])]
+
+theorem barrier_failed {s : St} {sr id : Nat} (h : id = (virtCk s id).1)
+    (hm : ((virtCk s id).2.filter (· ≠ sr)).isEmpty = true) (haf : s.ackFails = true) :
+    barrier s sr id =
+      ({ (flush s).1 with ckpt := some ((virtCk s id).1, []), slots := release (flush s).1.slots, ackFails := false },
+       [.reg sr id] ++ (flush s).2 ++
+         [.snap (virtCk s id).1 (flush s).1.kv (flush s).1.timers, .ackfail (virtCk s id).1,
+          .released (parkedList s)]) := by
+  unfold barrier
+  simp only []
+  rw [if_neg (by simpa using h), if_pos hm, if_pos haf]
 
 /-- facts about the checkpoint the barrier handler works on, uniform in "existing" vs "fresh" -/
-theorem virt_facts {s : St} {p a g} (h : Inv s p a g) {sr id : Nat} (hsr : sr < s.k) {it : Item}
+theorem virt_facts {s : St} {p a g} (h : Inv base u0 s p a g) {sr id : Nat} (hsr : sr < s.k) {it : Item}
     (hslot : s.slots sr = some (it, true)) :
     (s.ckpt = none ∨ s.ckpt = some (virtCk s id)) ∧
     (s.ckpt = none → (virtCk s id).1 = id) ∧
     (∀ x, x < s.k → x ∉ (virtCk s id).2 →
       lastProc x p = some (.bar (virtCk s id).1) ∧ ∀ it, s.slots x ≠ some (it, true)) ∧
-    (∀ x, x ∈ g ↔ x < s.k ∧ x ∉ (virtCk s id).2) ∧
+    (∀ x i, (x, i) ∈ g ↔ i = (virtCk s id).1 ∧ x < s.k ∧ x ∉ (virtCk s id).2) ∧
     sr ∈ (virtCk s id).2 ∧
     (∀ x it, s.slots x = some (it, false) → s.ckpt = some (virtCk s id) ∧ x ∉ (virtCk s id).2) := by
   cases hc : s.ckpt with
@@ -391,13 +556,13 @@ theorem virt_facts {s : St} {p a g} (h : Inv s p a g) {sr id : Nat} (hsr : sr < 
     refine ⟨Or.inl rfl, fun _ => rfl, ?_, ?_, by simpa using hsr, ?_⟩
     · intro x hx hxm
       exact absurd (List.mem_range.mpr hx) hxm
-    · intro x
+    · intro x i
       constructor
       · intro hg
-        obtain ⟨i, m, hc', _⟩ := (h.got x).mp hg
+        obtain ⟨m, hc', _⟩ := (h.got x i).mp hg
         rw [hc] at hc'
         cases hc'
-      · intro ⟨hx, hxm⟩
+      · intro ⟨_, hx, hxm⟩
         exact absurd (List.mem_range.mpr hx) hxm
     · intro x it' hs
       obtain ⟨i, m, hc', _⟩ := h.parked x it' hs
@@ -409,16 +574,17 @@ theorem virt_facts {s : St} {p a g} (h : Inv s p a g) {sr id : Nat} (hsr : sr < 
     rw [hv]
     refine ⟨Or.inr rfl, fun h0 => (by cases h0), ?_, ?_, h.passed_missing hsr hslot hc, ?_⟩
     · intro x hx hxm
-      exact h.ck i m hc x hx hxm
-    · intro x
+      exact (h.ck i m hc).2 x hx hxm
+    · intro x i'
       constructor
       · intro hg
-        obtain ⟨i', m', hc', hx, hxm⟩ := (h.got x).mp hg
+        obtain ⟨m', hc', hx, hxm⟩ := (h.got x i').mp hg
         rw [hc] at hc'
         cases hc'
-        exact ⟨hx, hxm⟩
-      · intro ⟨hx, hxm⟩
-        exact (h.got x).mpr ⟨i, m, hc, hx, hxm⟩
+        exact ⟨rfl, hx, hxm⟩
+      · intro ⟨hi, hx, hxm⟩
+        subst hi
+        exact (h.got x _).mpr ⟨m, hc, hx, hxm⟩
     · intro x it' hs
       obtain ⟨i', m', hc', hxm⟩ := h.parked x it' hs
       rw [hc] at hc'
@@ -434,19 +600,19 @@ theorem filter_ne_empty {m : List Nat} {sr : Nat} (hm : (m.filter (· ≠ sr)).i
     cases this
 
 /-- the consumer runs `handleCheckpointBarrier` for a sender that passed alignment -/
-theorem barrier_inv {s : St} {p a g} (h : Inv s p a g) {sr id : Nat} (hsr : sr < s.k)
+theorem barrier_inv {s : St} {p a g} (h : Inv base u0 s p a g) {sr id : Nat} (hsr : sr < s.k)
     (hslot : s.slots sr = some (.bar id, true)) :
     (barrier s sr id).1.k = s.k ∧
-    Inv { (barrier s sr id).1 with slots := fun i => if i = sr then none else (barrier s sr id).1.slots i }
+    Inv base u0
+      { (barrier s sr id).1 with slots := fun i => if i = sr then none else (barrier s sr id).1.slots i }
       (p ++ [(sr, .bar id)] ++ procsOf (barrier s sr id).2) (a ++ entriesOf (barrier s sr id).2)
       (gotOf g (barrier s sr id).2) ∧
-    cutOK s.k (p ++ [(sr, .bar id)]) a (barrier s sr id).2 ∧ alignOK s.k g (barrier s sr id).2 := by
+    cutOK s.k base u0 (p ++ [(sr, .bar id)]) a (barrier s sr id).2 ∧ alignOK s.k g (barrier s sr id).2 := by
   obtain ⟨hck, hfresh, hcv, hgv, hsrc, hpk⟩ := virt_facts h hsr hslot (id := id)
-  have hnotg : sr ∉ g := h.passed_not_got hsr hslot
   by_cases hid : id = (virtCk s id).1
   · by_cases hm : ((virtCk s id).2.filter (· ≠ sr)).isEmpty = true
     · -- last barrier: flush, snapshot, ack, reset, release
-      rw [barrier_done hid hm]
+      rw [barrier_done hid hm h.af]
       have hf := flush_ext s
       have hfp := flush_pending s
       have hents : entriesOf (flush s).2 = s.pending := by
@@ -455,7 +621,7 @@ theorem barrier_inv {s : St} {p a g} (h : Inv s p a g) {sr id : Nat} (hsr : sr <
         simpa using this
       have hall : ∀ x, x < s.k → x ≠ sr → x ∉ (virtCk s id).2 := fun x _ hne hx => hne (filter_ne_empty hm hx)
       refine ⟨hf.k, ?_, ?_, ?_⟩
-      · refine ⟨?_, ?_, ?_, ?_, ?_⟩
+      · refine ⟨?_, ?_, ?_, ?_, ?_, ?_⟩
         · simp only [entriesOf_append, entriesOf, List.append_nil, List.nil_append]
           rw [hf.kv, List.foldl_append, ← h.kv_eq]
         · simp only [entriesOf_append, entriesOf, procsOf_append, procsOf, hf.onlyH.procsOf, List.append_nil,
@@ -471,11 +637,12 @@ theorem barrier_inv {s : St} {p a g} (h : Inv s p a g) {sr id : Nat} (hsr : sr <
             cases hsx : (flush s).1.slots x with
             | none => simp [hsx] at hs
             | some v => simp [hsx] at hs
-        · intro x
+        · intro x i
           simp [gotOf_append, gotOf]
+        · simpa [hf.af] using h.af
       · simp only [List.cons_append, List.nil_append, cutOK]
         rw [cutOK_append]
-        refine ⟨hf.onlyH.cutOK _ _ _, ?_⟩
+        refine ⟨hf.onlyH.cutOK _ _ _ _ _, ?_⟩
         simp only [cutOK, hf.onlyH.procsOf, List.append_nil, and_true]
         refine ⟨?_, ?_, ?_⟩
         · rw [hf.kv, List.foldl_append, ← h.kv_eq]
@@ -493,19 +660,21 @@ theorem barrier_inv {s : St} {p a g} (h : Inv s p a g) {sr id : Nat} (hsr : sr <
         simp only [alignOK, hf.onlyH.gotOf, and_true]
         intro x hx
         by_cases hxs : x = sr
-        · simp [hxs]
-        · exact List.mem_cons_of_mem _ ((hgv x).mpr ⟨hx, hall x hx hxs⟩)
+        · simp [hxs, ← hid]
+        · exact List.mem_cons_of_mem _ ((hgv x _).mpr ⟨rfl, hx, hall x hx hxs⟩)
     · -- barrier accepted, checkpoint still incomplete
       have hm' : ((virtCk s id).2.filter (· ≠ sr)).isEmpty = false := by simpa using hm
       rw [barrier_reg hid hm']
       refine ⟨rfl, ?_, trivial, ?_⟩
-      · refine ⟨by simpa [entriesOf] using h.kv_eq, ?_, ?_, ?_, ?_⟩
+      · refine ⟨by simpa [entriesOf] using h.kv_eq, ?_, ?_, ?_, ?_, h.af⟩
         · simp only [entriesOf, procsOf, List.append_nil, userProcs_append]
           rw [h.users]
           simp [userProcs]
-        · intro i m hc x hx hxm
+        · intro i m hc
           simp only [Option.some.injEq, Prod.mk.injEq] at hc
           obtain ⟨rfl, rfl⟩ := hc
+          refine ⟨(by intro he; rw [he] at hm'; simp at hm'), ?_⟩
+          intro x hx hxm
           simp only [procsOf, List.append_nil]
           rw [lastProc_concat]
           by_cases hxs : sr = x
@@ -526,23 +695,26 @@ theorem barrier_inv {s : St} {p a g} (h : Inv s p a g) {sr id : Nat} (hsr : sr <
             refine ⟨_, _, rfl, ?_⟩
             intro hin
             exact (hpk x it hs).2 (List.mem_filter.mp hin).1
-        · intro x
+        · intro x i
           simp only [gotOf, List.mem_cons]
           constructor
           · intro hx
-            rcases hx with rfl | hx
-            · exact ⟨_, _, rfl, hsr, by simp [List.mem_filter]⟩
-            · obtain ⟨hxk, hxm⟩ := (hgv x).mp hx
-              exact ⟨_, _, rfl, hxk, fun hin => hxm (List.mem_filter.mp hin).1⟩
-          · intro ⟨i, m, hc, hxk, hxm⟩
+            rcases hx with hx | hx
+            · simp only [Prod.mk.injEq] at hx
+              obtain ⟨rfl, rfl⟩ := hx
+              exact ⟨_, by rw [← hid], hsr, by simp [List.mem_filter]⟩
+            · obtain ⟨hi, hxk, hxm⟩ := (hgv x i).mp hx
+              subst hi
+              exact ⟨_, rfl, hxk, fun hin => hxm (List.mem_filter.mp hin).1⟩
+          · intro ⟨m, hc, hxk, hxm⟩
             simp only [Option.some.injEq, Prod.mk.injEq] at hc
             obtain ⟨rfl, rfl⟩ := hc
             by_cases hxs : x = sr
-            · exact Or.inl hxs
-            · refine Or.inr ((hgv x).mpr ⟨hxk, ?_⟩)
+            · exact Or.inl (by rw [hxs, ← hid])
+            · refine Or.inr ((hgv x _).mpr ⟨rfl, hxk, ?_⟩)
               intro hin
               exact hxm (List.mem_filter.mpr ⟨hin, by simpa using hxs⟩)
-      · simp [alignOK]
+      · simp only [alignOK]
   · -- id mismatch: rejected, nothing changes
     rw [barrier_reject hid]
     have hsome : s.ckpt = some (virtCk s id) := by
@@ -550,13 +722,15 @@ theorem barrier_inv {s : St} {p a g} (h : Inv s p a g) {sr id : Nat} (hsr : sr <
       · exact absurd (hfresh hnone).symm hid
       · exact hsome
     refine ⟨rfl, ?_, trivial, by simp [alignOK]⟩
-    refine ⟨by simpa [entriesOf] using h.kv_eq, ?_, ?_, ?_, ?_⟩
+    refine ⟨by simpa [entriesOf] using h.kv_eq, ?_, ?_, ?_, ?_, h.af⟩
     · simp only [entriesOf, procsOf, List.append_nil, userProcs_append]
       rw [h.users]
       simp [userProcs]
-    · intro i m hc x hx hxm
+    · intro i m hc
       simp only [Option.some.injEq] at hc
-      rw [hc] at hsrc hcv
+      rw [hc] at hsrc hcv hsome
+      refine ⟨(h.ck i m hsome).1, ?_⟩
+      intro x hx hxm
       simp only [procsOf, List.append_nil]
       rw [lastProc_concat]
       have hxs : ¬ sr = x := by
@@ -573,45 +747,74 @@ theorem barrier_inv {s : St} {p a g} (h : Inv s p a g) {sr id : Nat} (hsr : sr <
       · simp [hxs] at hs
       · simp only [hxs, if_false] at hs
         exact ⟨_, _, rfl, (hpk x it hs).2⟩
-    · intro x
+    · intro x i
       simp only [gotOf]
-      rw [h.got x, hsome]
+      rw [h.got x i, hsome]
 
-/-! ## every step preserves the invariant and emits a well-aligned piece of trace -/
+/-! ## every plain step preserves the invariant and emits a well-aligned piece of trace -/
+
+/-- the actions of normal operation (everything but the injected ack failure and the redeploy) -/
+def Act.plain : Act → Bool
+  | .armFail => false
+  | .redeploy => false
+  | _ => true
 
 /-- what one step must establish -/
-def StepOK (s : St) (p : List (Nat × Item)) (a : List Entry) (g : List Nat) (r : St × List Obs) : Prop :=
-  r.1.k = s.k ∧ Inv r.1 (p ++ procsOf r.2) (a ++ entriesOf r.2) (gotOf g r.2) ∧ cutOK s.k p a r.2 ∧
-    alignOK s.k g r.2
+def StepOK (base : KVf) (u0 : List (Nat × Bytes × Nat × Nat)) (s : St) (p : List (Nat × Item)) (a : List Entry) (g : List (Nat × Nat))
+    (r : St × List Obs) : Prop :=
+  r.1.k = s.k ∧ Inv base u0 r.1 (p ++ procsOf r.2) (a ++ entriesOf r.2) (gotOf g r.2) ∧
+    cutOK s.k base u0 p a r.2 ∧ alignOK s.k g r.2
 
-theorem stepOK_triv {s : St} {p a g} (h : Inv s p a g) : StepOK s p a g (s, []) :=
+theorem stepOK_triv {s : St} {p a g} (h : Inv base u0 s p a g) : StepOK base u0 s p a g (s, []) :=
   ⟨rfl, by simpa [procsOf, entriesOf, gotOf] using h, trivial, trivial⟩
 
-theorem stepOK_ext {s s' : St} {p a g} {o : List Obs} (h : Inv s p a g) (hx : Ext s s' o []) :
-    StepOK s p a g (s', o) := by
-  refine ⟨hx.k, ?_, hx.onlyH.cutOK _ _ _, hx.onlyH.alignOK _ _⟩
+theorem stepOK_ext {s s' : St} {p a g} {o : List Obs} (h : Inv base u0 s p a g) (hx : Ext s s' o []) :
+    StepOK base u0 s p a g (s', o) := by
+  refine ⟨hx.k, ?_, hx.onlyH.cutOK _ _ _ _ _, hx.onlyH.alignOK _ _⟩
   simp only [hx.onlyH.procsOf, hx.onlyH.gotOf, List.append_nil]
   exact h.ext hx (by simp [userOf]) (fun _ _ _ _ _ _ => rfl)
 
-theorem stepOK_go_ext {s s' : St} {p a g} {o : List Obs} {es : List Entry} {sr : Nat} {it : Item}
-    (h : Inv s p a g) (hsr : sr < s.k) (hslot : s.slots sr = some (it, true)) (hx : Ext s s' o es)
-    (hu : userProcs [(sr, it)] = userOf es) :
-    StepOK s p a g ({ s' with slots := fun i => if i = sr then none else s'.slots i }, .proc sr it :: o) := by
-  refine ⟨hx.k, ?_, ?_, ?_⟩
-  · simp only [procsOf, entriesOf, gotOf, hx.onlyH.procsOf, hx.onlyH.gotOf]
-    refine Inv.clear (h.ext hx (p' := p ++ [(sr, it)]) ?_ ?_) sr
-    · rw [userProcs_append, hu]
-    · intro id m x hc hx' hxm
+/-- the consumer took item `it` of sender `sr`; its event function only batched/flushed (`Ext`) and then emitted
+`tl`, observations without effect on the projections -/
+theorem stepOK_go_ext {s s' s'' : St} {p a g} {o tl : List Obs} {es : List Entry} {sr : Nat} {it : Item}
+    (h : Inv base u0 s p a g) (hsr : sr < s.k) (hslot : s.slots sr = some (it, true)) (hx : Ext s s' o es)
+    (hu : userProcs [(sr, it)] = userOf es)
+    (htl : procsOf tl = [] ∧ entriesOf tl = [] ∧ (∀ g, gotOf g tl = g) ∧ (∀ p a, cutOK s.k base u0 p a tl) ∧
+      ∀ g, alignOK s.k g tl)
+    (hk : s''.k = s'.k) (hs : s''.slots = fun i => if i = sr then none else s'.slots i) (hc : s''.ckpt = s'.ckpt)
+    (hp : s''.pending = s'.pending) (hkv : s''.kv = s'.kv) (ha : s''.ackFails = s'.ackFails) :
+    StepOK base u0 s p a g (s'', .proc sr it :: (o ++ tl)) := by
+  obtain ⟨t1, t2, t3, t4, t5⟩ := htl
+  refine ⟨hk.trans hx.k, ?_, ?_, ?_⟩
+  · simp only [procsOf, entriesOf, gotOf, procsOf_append, entriesOf_append, gotOf_append, hx.onlyH.procsOf,
+      hx.onlyH.gotOf, t1, t2, t3, List.append_nil, List.nil_append]
+    have hinv := Inv.clear (h.ext hx (p' := p ++ [(sr, it)]) (by rw [userProcs_append, hu]) (by
+      intro id m x hc hx' hxm
       rw [lastProc_concat]
       have : ¬ sr = x := by
         intro hxs
         subst hxs
         exact hxm (h.passed_missing hsr hslot hc)
-      simp [this]
+      simp [this])) sr
+    exact hinv.congr hk (by rw [hs]) hc hp hkv ha
   · simp only [cutOK]
-    exact hx.onlyH.cutOK _ _ _
+    rw [cutOK_append]
+    exact ⟨hx.onlyH.cutOK _ _ _ _ _, t4 _ _⟩
   · simp only [alignOK]
-    exact ⟨h.passed_not_got hsr hslot, hx.onlyH.alignOK _ _⟩
+    rw [alignOK_append]
+    exact ⟨h.passed_not_got hsr hslot, hx.onlyH.alignOK _ _, t5 _⟩
+
+theorem stepOK_go_ext0 {s s' : St} {p a g} {o : List Obs} {es : List Entry} {sr : Nat} {it : Item}
+    (h : Inv base u0 s p a g) (hsr : sr < s.k) (hslot : s.slots sr = some (it, true)) (hx : Ext s s' o es)
+    (hu : userProcs [(sr, it)] = userOf es) :
+    StepOK base u0 s p a g ({ s' with slots := fun i => if i = sr then none else s'.slots i }, .proc sr it :: o) := by
+  have := stepOK_go_ext (s'' := { s' with slots := fun i => if i = sr then none else s'.slots i }) (tl := [])
+    h hsr hslot hx hu ⟨rfl, rfl, fun _ => rfl, fun _ _ => trivial, fun _ => trivial⟩ rfl rfl rfl rfl rfl rfl
+  simpa using this
+
+theorem inert_nil (k : Nat) : procsOf [] = [] ∧ entriesOf [] = [] ∧ (∀ g, gotOf g [] = g) ∧
+    (∀ p a, cutOK k base u0 p a []) ∧ ∀ g, alignOK k g [] :=
+  ⟨rfl, rfl, fun _ => rfl, fun _ _ => trivial, fun _ => trivial⟩
 
 theorem timeout_ext (s : St) (t : Option Nat) : Ext s (timeout s t).1 (timeout s t).2 [] := by
   unfold timeout
@@ -621,28 +824,29 @@ theorem timeout_ext (s : St) (t : Option Nat) : Ext s (timeout s t).1 (timeout s
     · exact Ext.refl s
   · exact Ext.refl s
 
-theorem step_go_run {s : St} {sr : Nat} {it : Item} (hsr : sr < s.k) (hslot : s.slots sr = some (it, true)) :
-    step s (.go sr) =
+theorem stepLive_go_run {s : St} {sr : Nat} {it : Item} (hsr : sr < s.k) (hslot : s.slots sr = some (it, true)) :
+    stepLive s (.go sr) =
       ({ (process s sr it).1 with slots := fun i => if i = sr then none else (process s sr it).1.slots i },
        .proc sr it :: (process s sr it).2) := by
-  simp [step, hsr, hslot]
+  simp [stepLive, hsr, hslot]
 
-theorem step_go_noop {s : St} {sr : Nat} (h : ¬ sr < s.k ∨ ∀ it, s.slots sr ≠ some (it, true)) :
-    step s (.go sr) = (s, []) := by
+theorem stepLive_go_noop {s : St} {sr : Nat} (h : ¬ sr < s.k ∨ ∀ it, s.slots sr ≠ some (it, true)) :
+    stepLive s (.go sr) = (s, []) := by
   rcases h with h | h
-  · simp [step, h]
+  · simp [stepLive, h]
   · cases hs : s.slots sr with
-    | none => simp [step, hs]
+    | none => simp [stepLive, hs]
     | some v =>
       obtain ⟨it, b⟩ := v
       cases b with
-      | false => simp [step, hs]
+      | false => simp [stepLive, hs]
       | true => exact absurd hs (h it)
 
-theorem step_ok {s : St} {p a g} (h : Inv s p a g) (act : Act) : StepOK s p a g (step s act) := by
+theorem stepLive_ok {s : St} {p a g} (h : Inv base u0 s p a g) (act : Act) (hpl : act.plain = true) :
+    StepOK base u0 s p a g (stepLive s act) := by
   cases act with
   | align sr it =>
-    simp only [step]
+    simp only [stepLive]
     split
     · rename_i hsr
       split
@@ -650,19 +854,22 @@ theorem step_ok {s : St} {p a g} (h : Inv s p a g) (act : Act) : StepOK s p a g 
       · rename_i hnone
         refine ⟨rfl, ?_, trivial, trivial⟩
         simp only [procsOf, entriesOf, gotOf, List.append_nil]
-        refine ⟨h.kv_eq, h.users, ?_, ?_, h.got⟩
-        · intro id m hc x hx hxm
-          refine ⟨(h.ck id m hc x hx hxm).1, ?_⟩
+        refine ⟨h.kv_eq, h.users, ?_, ?_, h.got, h.af⟩
+        · intro id m hc
+          refine ⟨(h.ck id m hc).1, ?_⟩
+          intro x hx hxm
+          refine ⟨((h.ck id m hc).2 x hx hxm).1, ?_⟩
           intro it'
           by_cases hxs : x = sr
           · subst hxs
             have hpass : passes s x = false := by
               unfold passes
               rw [hc]
-              simpa using hxm
+              have hne := (h.ck id m hc).1
+              simp [hxm, hne]
             simp [hpass]
           · simp only [hxs, if_false]
-            exact (h.ck id m hc x hx hxm).2 it'
+            exact ((h.ck id m hc).2 x hx hxm).2 it'
         · intro x it' hs
           by_cases hxs : x = sr
           · subst hxs
@@ -673,7 +880,10 @@ theorem step_ok {s : St} {p a g} (h : Inv s p a g) (act : Act) : StepOK s p a g 
             | some c =>
               obtain ⟨id, m⟩ := c
               refine ⟨id, m, rfl, ?_⟩
-              simpa [passes, hc] using hpass
+              unfold passes at hpass
+              rw [hc] at hpass
+              simp at hpass
+              exact hpass.1
           · simp only [hxs, if_false] at hs
             exact h.parked x it' hs
     · exact stepOK_triv h
@@ -681,28 +891,28 @@ theorem step_ok {s : St} {p a g} (h : Inv s p a g) (act : Act) : StepOK s p a g 
     by_cases hsr : sr < s.k
     · cases hs : s.slots sr with
       | none =>
-        rw [step_go_noop (Or.inr (by simp [hs]))]
+        rw [stepLive_go_noop (Or.inr (by simp [hs]))]
         exact stepOK_triv h
       | some v =>
         obtain ⟨it, b⟩ := v
         cases b with
         | false =>
-          rw [step_go_noop (Or.inr (by simp [hs]))]
+          rw [stepLive_go_noop (Or.inr (by simp [hs]))]
           exact stepOK_triv h
         | true =>
-          rw [step_go_run hsr hs]
+          rw [stepLive_go_run hsr hs]
           cases it with
           | ev key pl t =>
-            exact stepOK_go_ext h hsr hs (addEntry_ext s (.user sr key pl t)) (by simp [userProcs, userOf])
+            exact stepOK_go_ext0 h hsr hs (addEntry_ext s (.user sr key pl t)) (by simp [userProcs, userOf])
           | wm ts =>
             simp only [process]
-            obtain ⟨o, es, ho, hext, hu⟩ := fireLoop_ext sr
+            obtain ⟨o, es, ho, hext, hu, _⟩ := fireLoop_ext sr
               (minWm s.k fun i => if i = sr then ts else s.wms i) s.timers.length
               { s with wms := fun i => if i = sr then ts else s.wms i,
                        watermark := minWm s.k fun i => if i = sr then ts else s.wms i } []
             rw [ho]
             simp only [List.nil_append]
-            exact stepOK_go_ext h hsr hs (hext.of_eq rfl rfl rfl rfl rfl rfl) (by simp [userProcs, hu])
+            exact stepOK_go_ext0 h hsr hs (hext.of_eq rfl rfl rfl rfl rfl rfl rfl) (by simp [userProcs, hu])
           | bar id =>
             simp only [process]
             obtain ⟨hk, hinv, hcut, hal⟩ := barrier_inv h hsr hs
@@ -711,29 +921,137 @@ theorem step_ok {s : St} {p a g} (h : Inv s p a g) (act : Act) : StepOK s p a g 
             · simpa [cutOK] using hcut
             · simp only [alignOK]
               exact ⟨h.passed_not_got hsr hs, hal⟩
-    · rw [step_go_noop (Or.inl hsr)]
+          | done =>
+            simp only [process]
+            refine stepOK_go_ext h hsr hs (flush_ext s) (by simp [userProcs, userOf]) ?_ rfl rfl rfl rfl rfl rfl
+            split <;> simp [procsOf, entriesOf, gotOf, cutOK, alignOK]
+    · rw [stepLive_go_noop (Or.inl hsr)]
       exact stepOK_triv h
   | tick => exact stepOK_ext h (timeout_ext s s.lastSet)
   | stale => exact stepOK_ext h (timeout_ext s s.prevSet)
+  | armFail => simp [Act.plain] at hpl
+  | redeploy => simp [Act.plain] at hpl
+
+theorem step_ok {s : St} {p a g} (h : Inv base u0 s p a g) (act : Act) (hpl : act.plain = true) :
+    StepOK base u0 s p a g (step s act) := by
+  unfold step
+  split
+  · exact stepOK_triv h
+  · exact stepLive_ok h act hpl
+
+/-! ## the timer store follows the trace -/
+
+def TimersStep (s : St) (r : St × List Obs) : Prop :=
+  r.1.timers = timersOf s.timers r.2 ∧ timersOK s.timers r.2
+
+theorem timersStep_triv (s : St) : TimersStep s (s, []) := ⟨rfl, trivial⟩
+
+theorem barrier_timers (s : St) (sr id : Nat) : TimersStep s (barrier s sr id) := by
+  unfold barrier
+  simp only []
+  split
+  · exact ⟨rfl, by simp [timersOK]⟩
+  · split
+    · have hf := flush_ext s
+      split
+      · constructor
+        · simp [timersOf_append, timersOf, flush_timers]
+        · simp only [List.cons_append, List.nil_append, timersOK]
+          rw [timersOK_append]
+          exact ⟨hf.onlyH.timersOK _, by simp [timersOK, flush_timers]⟩
+      · constructor
+        · simp [timersOf_append, timersOf, flush_timers]
+        · simp only [List.cons_append, List.nil_append, timersOK]
+          rw [timersOK_append]
+          exact ⟨hf.onlyH.timersOK _, by simp [timersOK, flush_timers]⟩
+    · exact ⟨rfl, by simp [timersOK]⟩
+
+theorem process_timers (s : St) (sr : Nat) (it : Item) : TimersStep s (process s sr it) := by
+  cases it with
+  | ev key pl t =>
+    exact ⟨addEntry_timers s _, (addEntry_ext s _).onlyH.timersOK _⟩
+  | wm ts =>
+    simp only [process]
+    obtain ⟨o, es, ho, hext, _, htm⟩ := fireLoop_ext sr
+      (minWm s.k fun i => if i = sr then ts else s.wms i) s.timers.length
+      { s with wms := fun i => if i = sr then ts else s.wms i,
+               watermark := minWm s.k fun i => if i = sr then ts else s.wms i } []
+    refine ⟨?_, ?_⟩
+    · rw [htm, ho]
+      simp
+    · rw [ho]
+      simpa using hext.onlyH.timersOK _
+  | bar id => exact barrier_timers s sr id
+  | done =>
+    simp only [process]
+    have hf := flush_ext s
+    constructor
+    · simp only [timersOf_append]
+      split <;> simp [timersOf, flush_timers]
+    · rw [timersOK_append]
+      refine ⟨hf.onlyH.timersOK _, ?_⟩
+      split <;> simp [timersOK]
+
+theorem timeout_timers (s : St) (t : Option Nat) : TimersStep s (timeout s t) := by
+  unfold timeout
+  split
+  · split
+    · exact ⟨flush_timers s, (flush_ext s).onlyH.timersOK _⟩
+    · exact timersStep_triv s
+  · exact timersStep_triv s
+
+theorem step_timers (s : St) (act : Act) (hpl : act.plain = true) : TimersStep s (step s act) := by
+  unfold step
+  split
+  · exact timersStep_triv s
+  · cases act with
+    | align sr it =>
+      simp only [stepLive]
+      split
+      · split
+        · exact ⟨rfl, by simp [timersOK]⟩
+        · exact ⟨rfl, by simp [timersOK]⟩
+      · exact timersStep_triv s
+    | go sr =>
+      by_cases hsr : sr < s.k
+      · cases hs : s.slots sr with
+        | none => rw [stepLive_go_noop (Or.inr (by simp [hs]))]; exact timersStep_triv s
+        | some v =>
+          obtain ⟨it, b⟩ := v
+          cases b with
+          | false => rw [stepLive_go_noop (Or.inr (by simp [hs]))]; exact timersStep_triv s
+          | true =>
+            rw [stepLive_go_run hsr hs]
+            obtain ⟨h1, h2⟩ := process_timers s sr it
+            exact ⟨by simpa [timersOf] using h1, by simpa [timersOK] using h2⟩
+      · rw [stepLive_go_noop (Or.inl hsr)]; exact timersStep_triv s
+    | tick => exact timeout_timers s s.lastSet
+    | stale => exact timeout_timers s s.prevSet
+    | armFail => simp [Act.plain] at hpl
+    | redeploy => simp [Act.plain] at hpl
 
 /-! ## whole runs -/
 
-/-- invariant + trace checkers for a trace prefix -/
-def TraceOK (k : Nat) (s : St) (obs : List Obs) : Prop :=
-  s.k = k ∧ Inv s (procsOf obs) (entriesOf obs) (gotOf [] obs) ∧ cutOK k [] [] obs ∧ alignOK k [] obs
+/-- invariant + trace checkers for a trace prefix of a deployment that started in `s0` -/
+def TraceOK (s0 s : St) (obs : List Obs) : Prop :=
+  s.k = s0.k ∧ Inv s0.kv (userOf s0.pending) s (procsOf obs) (entriesOf obs) (gotOf [] obs) ∧
+    cutOK s0.k s0.kv (userOf s0.pending) [] [] obs ∧ alignOK s0.k [] obs ∧
+    s.timers = timersOf s0.timers obs ∧ timersOK s0.timers obs
 
-theorem runFrom_ok (k : Nat) : ∀ (as : List Act) (s : St) (acc : List Obs),
-    TraceOK k s acc → TraceOK k (runFrom s acc as).1 (runFrom s acc as).2 := by
+theorem runFrom_ok (s0 : St) : ∀ (as : List Act) (s : St) (acc : List Obs), (∀ a ∈ as, a.plain = true) →
+    TraceOK s0 s acc → TraceOK s0 (runFrom s acc as).1 (runFrom s acc as).2 := by
   intro as
   induction as with
-  | nil => intro s acc h; exact h
+  | nil => intro s acc _ h; exact h
   | cons act as ih =>
-    intro s acc h
-    obtain ⟨hk, hinv, hcut, hal⟩ := h
-    obtain ⟨hk', hinv', hcut', hal'⟩ := step_ok hinv act
+    intro s acc hpl h
+    obtain ⟨hk, hinv, hcut, hal, htm, htok⟩ := h
+    have hp := hpl act List.mem_cons_self
+    obtain ⟨hk', hinv', hcut', hal'⟩ := step_ok hinv act hp
+    obtain ⟨ht1, ht2⟩ := step_timers s act hp
     simp only [runFrom]
-    apply ih
-    refine ⟨hk'.trans hk, ?_, ?_, ?_⟩
+    apply ih _ _ (fun a ha => hpl a (List.mem_cons_of_mem _ ha))
+    refine ⟨hk'.trans hk, ?_, ?_, ?_, ?_, ?_⟩
     · rw [procsOf_append, entriesOf_append, gotOf_append]
       exact hinv'
     · rw [cutOK_append]
@@ -742,40 +1060,49 @@ theorem runFrom_ok (k : Nat) : ∀ (as : List Act) (s : St) (acc : List Obs),
     · rw [alignOK_append]
       rw [hk] at hal'
       exact ⟨hal, hal'⟩
+    · rw [timersOf_append, ← htm]
+      exact ht1
+    · rw [timersOK_append, ← htm]
+      exact ⟨htok, ht2⟩
 
-theorem run_ok (k b : Nat) (as : List Act) : TraceOK k (run k b as).1 (run k b as).2 :=
-  runFrom_ok k as (init k b) [] ⟨rfl, inv_init k b, trivial, trivial⟩
+theorem run_ok {s0 : St} (hf : Fresh s0) (as : List Act) (hpl : ∀ a ∈ as, a.plain = true) :
+    TraceOK s0 (runFrom s0 [] as).1 (runFrom s0 [] as).2 :=
+  runFrom_ok s0 as s0 [] hpl ⟨rfl, inv_fresh hf, trivial, trivial, rfl, trivial⟩
 
 /-- between an accepted barrier of `sr` and the next item of `sr` the consumer takes there is a snapshot -/
-theorem alignOK_blocked {k : Nat} {sr : Nat} {it : Item} : ∀ (mid : List Obs) (g : List Nat) (post : List Obs),
-    sr ∈ g → alignOK k g (mid ++ .proc sr it :: post) → ∃ id S T, Obs.snap id S T ∈ mid := by
+theorem alignOK_blocked {k : Nat} {sr : Nat} {it : Item} : ∀ (mid : List Obs) (g : List (Nat × Nat))
+    (post : List Obs), (∃ i, (sr, i) ∈ g) → alignOK k g (mid ++ .proc sr it :: post) →
+    ∃ id S T, Obs.snap id S T ∈ mid := by
   intro mid
   induction mid with
   | nil =>
     intro g post hg h
     simp only [List.nil_append, alignOK] at h
-    exact absurd hg h.1
+    obtain ⟨i, hi⟩ := hg
+    exact absurd hi (h.1 i)
   | cons x r ih =>
     intro g post hg h
     cases x with
     | snap id S T => exact ⟨id, S, T, List.mem_cons_self⟩
     | reg x i =>
       simp only [List.cons_append, alignOK] at h
-      obtain ⟨id, S, T, hm⟩ := ih (x :: g) post (List.mem_cons_of_mem _ hg) h
+      obtain ⟨i0, hi0⟩ := hg
+      obtain ⟨id, S, T, hm⟩ := ih ((x, i) :: g) post ⟨i0, List.mem_cons_of_mem _ hi0⟩ h
       exact ⟨id, S, T, List.mem_cons_of_mem _ hm⟩
     | proc x i =>
       simp only [List.cons_append, alignOK] at h
       obtain ⟨id, S, T, hm⟩ := ih g post hg h.2
       exact ⟨id, S, T, List.mem_cons_of_mem _ hm⟩
-    | handler _ _ | aligned _ _ | busy _ | reject _ _ _ | ack _ | released _ =>
+    | handler _ _ _ | fired _ _ | aligned _ _ | busy _ | reject _ _ _ | ack _ | released _ | ackfail _
+    | completed _ | stopped | redeployed _ =>
       simp only [List.cons_append, alignOK] at h
       obtain ⟨id, S, T, hm⟩ := ih g post hg h
       exact ⟨id, S, T, List.mem_cons_of_mem _ hm⟩
 
-/-- a snapshot needs an accepted barrier of every sender since the previous snapshot -/
-theorem alignOK_fresh {k : Nat} {id : Nat} {S : KVf} {T : Timers} : ∀ (mid : List Obs) (g : List Nat)
+/-- a snapshot `id` needs an accepted barrier `id` of every sender since the previous snapshot -/
+theorem alignOK_fresh {k : Nat} {id : Nat} {S : KVf} {T : Timers} : ∀ (mid : List Obs) (g : List (Nat × Nat))
     (post : List Obs), alignOK k g (mid ++ .snap id S T :: post) →
-    ∀ sr, sr < k → sr ∈ g ∨ ∃ i, Obs.reg sr i ∈ mid := by
+    ∀ sr, sr < k → (sr, id) ∈ g ∨ Obs.reg sr id ∈ mid := by
   intro mid
   induction mid with
   | nil =>
@@ -787,25 +1114,99 @@ theorem alignOK_fresh {k : Nat} {id : Nat} {S : KVf} {T : Timers} : ∀ (mid : L
     cases x with
     | snap id' S' T' =>
       simp only [List.cons_append, alignOK] at h
-      rcases ih [] post h.2 sr hsr with hg | ⟨i, hm⟩
+      rcases ih [] post h.2 sr hsr with hg | hm
       · cases hg
-      · exact Or.inr ⟨i, List.mem_cons_of_mem _ hm⟩
+      · exact Or.inr (List.mem_cons_of_mem _ hm)
     | reg x i =>
       simp only [List.cons_append, alignOK] at h
-      rcases ih (x :: g) post h sr hsr with hg | ⟨i', hm⟩
-      · rcases List.mem_cons.mp hg with rfl | hg
-        · exact Or.inr ⟨i, List.mem_cons_self⟩
+      rcases ih ((x, i) :: g) post h sr hsr with hg | hm
+      · rcases List.mem_cons.mp hg with heq | hg
+        · simp only [Prod.mk.injEq] at heq
+          obtain ⟨rfl, rfl⟩ := heq
+          exact Or.inr List.mem_cons_self
         · exact Or.inl hg
-      · exact Or.inr ⟨i', List.mem_cons_of_mem _ hm⟩
+      · exact Or.inr (List.mem_cons_of_mem _ hm)
     | proc x i =>
       simp only [List.cons_append, alignOK] at h
-      rcases ih g post h.2 sr hsr with hg | ⟨i', hm⟩
+      rcases ih g post h.2 sr hsr with hg | hm
       · exact Or.inl hg
-      · exact Or.inr ⟨i', List.mem_cons_of_mem _ hm⟩
-    | handler _ _ | aligned _ _ | busy _ | reject _ _ _ | ack _ | released _ =>
+      · exact Or.inr (List.mem_cons_of_mem _ hm)
+    | handler _ _ _ | fired _ _ | aligned _ _ | busy _ | reject _ _ _ | ack _ | released _ | ackfail _
+    | completed _ | stopped | redeployed _ =>
       simp only [List.cons_append, alignOK] at h
-      rcases ih g post h sr hsr with hg | ⟨i', hm⟩
+      rcases ih g post h sr hsr with hg | hm
       · exact Or.inl hg
-      · exact Or.inr ⟨i', List.mem_cons_of_mem _ hm⟩
+      · exact Or.inr (List.mem_cons_of_mem _ hm)
+
+theorem timersOK_split {c : Timers} {pre post : List Obs} {id : Nat} {S : KVf} {T : Timers}
+    (h : timersOK c (pre ++ .snap id S T :: post)) : T = timersOf c pre := by
+  rw [timersOK_append] at h
+  exact h.2.1
+
+/-! ## where the timers of a snapshot come from -/
+
+theorem mem_insertTimer {x y : Nat × Bytes} {l : Timers} (h : y ∈ insertTimer x l) : y = x ∨ y ∈ l := by
+  induction l with
+  | nil => simp [insertTimer] at h; exact Or.inl h
+  | cons z r ih =>
+    unfold insertTimer at h
+    split at h
+    · exact Or.inr h
+    · split at h
+      · rcases List.mem_cons.mp h with h | h
+        · exact Or.inl h
+        · exact Or.inr h
+      · rcases List.mem_cons.mp h with h | h
+        · exact Or.inr (h ▸ List.mem_cons_self)
+        · rcases ih h with h | h
+          · exact Or.inl h
+          · exact Or.inr (List.mem_cons_of_mem _ h)
+
+theorem mem_setTimer_foldl {w : Nat} {y : Nat × Bytes} : ∀ (es : List Entry) (c : Timers),
+    y ∈ es.foldl (setTimer w) c → y ∈ c ∨ ∃ sr p, Entry.user sr y.2 p y.1 ∈ es := by
+  intro es
+  induction es with
+  | nil => intro c h; exact Or.inl h
+  | cons e r ih =>
+    intro c h
+    simp only [List.foldl_cons] at h
+    rcases ih _ h with h1 | ⟨sr, p, hm⟩
+    · cases e with
+      | user sr key p t =>
+        simp only [setTimer] at h1
+        split at h1
+        · rcases mem_insertTimer h1 with rfl | h1
+          · exact Or.inr ⟨sr, p, List.mem_cons_self⟩
+          · exact Or.inl h1
+        · exact Or.inl h1
+      | timer sr key ts => exact Or.inl h1
+    · exact Or.inr ⟨sr, p, List.mem_cons_of_mem _ hm⟩
+
+theorem mem_timersOf {y : Nat × Bytes} : ∀ (obs : List Obs) (c : Timers),
+    y ∈ timersOf c obs → y ∈ c ∨ ∃ sr p, Entry.user sr y.2 p y.1 ∈ entriesOf obs := by
+  intro obs
+  induction obs with
+  | nil => intro c h; exact Or.inl h
+  | cons x r ih =>
+    intro c h
+    cases x with
+    | handler es w gv =>
+      simp only [timersOf] at h
+      rcases ih _ h with h1 | ⟨sr, p, hm⟩
+      · rcases mem_setTimer_foldl es c h1 with h2 | ⟨sr, p, hm⟩
+        · exact Or.inl h2
+        · exact Or.inr ⟨sr, p, by simp [entriesOf, hm]⟩
+      · exact Or.inr ⟨sr, p, by simp [entriesOf, hm]⟩
+    | fired key ts =>
+      simp only [timersOf] at h
+      rcases ih _ h with h1 | ⟨sr, p, hm⟩
+      · exact Or.inl (List.mem_of_mem_erase h1)
+      · exact Or.inr ⟨sr, p, by simpa [entriesOf] using hm⟩
+    | proc _ _ | snap _ _ _ | reg _ _ | aligned _ _ | busy _ | reject _ _ _ | ack _ | released _ | ackfail _
+    | completed _ | stopped | redeployed _ =>
+      simp only [timersOf] at h
+      rcases ih _ h with h1 | ⟨sr, p, hm⟩
+      · exact Or.inl h1
+      · exact Or.inr ⟨sr, p, by simpa [entriesOf] using hm⟩
 
 end Rxn.Align
